@@ -209,10 +209,10 @@ theorem place_step (pre post : List NodeId) (marker : NodeId) (seq : List Item)
       intro n
       simp only [placeStep, place1]
       cases nextMounted ks.2 p with
-      | none => exact mem_mountItem.mp
+      | none => exact mem_mountItem
       | some y =>
         simp only [insertBeforeThisOrMarker]
-        cases y.nodes.head? <;> exact mem_mountItem.mp
+        cases y.nodes.head? <;> exact mem_mountItem
     refine ⟨seq', ⟨hk, hkids_nodup, ?_, hord, ?_⟩, ⟨hpos.2, hitems.2, ?_, ?_, ?_, ?_, hdis.2⟩⟩
     · intro z hz
       rcases (hms z).mp hz with rfl | hz
